@@ -505,29 +505,40 @@ func ruleSEM(c *Ctx) {
 	// unary operators
 	un := w.compileArm("UnaryExpr")
 	if un != nil {
+		// what the arm emits for each unary token, whatever the dispatch on
+		// node.Token is written as (switch or if-chain); a token for which it
+		// returns an error is not a unary operator
 		um := map[string]string{}
-		ast.Inspect(un, func(n ast.Node) bool {
-			cc, ok := n.(*ast.CaseClause)
-			if !ok || cc == un || cc.List == nil {
-				return true
+		isTok := func(e ast.Expr) bool {
+			f, _ := FieldSel(p, e)
+			return f != nil && f.Name() == "Token" && namedIs(p.TypesInfo.TypeOf(ast.Unparen(e).(*ast.SelectorExpr).X), w.Parser.Types, "UnaryExpr")
+		}
+		tk := w.Token.Types.Scope()
+		for _, tname := range tk.Names() {
+			co, ok := tk.Lookup(tname).(*types.Const)
+			if !ok || !strings.HasSuffix(co.Type().String(), "token.Token") {
+				continue
 			}
-			for _, e := range cc.List {
-				co := ConstObj(p, e)
-				if co == nil {
-					continue
-				}
-				em := ""
-				ast.Inspect(cc, func(m ast.Node) bool {
-					call, ok := m.(*ast.CallExpr)
-					if ok && isMethodOf(Callee(p, call), p.Types, "Compiler", "emit") && len(call.Args) == 2 {
-						em = w.Src(call.Args[1])
+			run := execFor(p, un.Body, isTok, co)
+			em, rejected := "", false
+			for _, st := range run {
+				ast.Inspect(st, func(m ast.Node) bool {
+					switch y := m.(type) {
+					case *ast.CallExpr:
+						if isMethodOf(Callee(p, y), p.Types, "Compiler", "emit") && len(y.Args) == 2 {
+							em = w.Src(y.Args[1])
+						}
+						if isMethodOf(Callee(p, y), p.Types, "Compiler", "errorf") {
+							rejected = true
+						}
 					}
 					return true
 				})
+			}
+			if !rejected {
 				um[co.Name()] = em
 			}
-			return true
-		})
+		}
 		want := map[string]string{"Not": "parser.OpLNot", "Sub": "parser.OpMinus", "Xor": "parser.OpBComplement", "Add": ""}
 		good := len(um) == len(want)
 		for k, v := range want {
